@@ -9,6 +9,7 @@ package sim
 import (
 	"fmt"
 	"hash/fnv"
+	"os"
 	"regexp"
 	"runtime"
 	"sort"
@@ -92,6 +93,7 @@ type Bubble struct {
 	gs      map[int64]*G
 	names   map[string]int
 	all     []*G
+	pending []*G // registered during the current step, not yet finally named
 	running *G
 	fault   string
 	done    map[string]bool
@@ -149,12 +151,11 @@ func (b *Bubble) yield(point, id string) {
 			g.Client = b.running.Client
 			g.Name = g.Client + "/" + id
 		}
-		if n := b.names[g.Name]; n > 0 {
-			b.names[g.Name] = n + 1
-			g.Name = fmt.Sprintf("%s~%d", g.Name, n+1)
-		} else {
-			b.names[g.Name] = 1
-		}
+		// The final name (with a ~n suffix when the base name is already taken) is
+		// assigned by the scheduler once everything is quiescent, in goroutine-id
+		// order, so that it does not depend on which of several goroutines spawned
+		// in the same step happens to reach its entry hook first.
+		b.pending = append(b.pending, g)
 		b.gs[gid] = g
 		b.all = append(b.all, g)
 	} else if g != b.running && !b.cfg.WakePoints[point] {
@@ -225,6 +226,18 @@ func (b *Bubble) loop(clients []Client) {
 		if b.fault != "" {
 			b.mu.Unlock()
 			return
+		}
+		if len(b.pending) > 0 {
+			sort.Slice(b.pending, func(i, j int) bool { return b.pending[i].goid < b.pending[j].goid })
+			for _, g := range b.pending {
+				if n := b.names[g.Name]; n > 0 {
+					b.names[g.Name] = n + 1
+					g.Name = fmt.Sprintf("%s~%d", g.Name, n+1)
+				} else {
+					b.names[g.Name] = 1
+				}
+			}
+			b.pending = b.pending[:0]
 		}
 		// Scheduler-performed events due now.
 		fired := false
@@ -380,6 +393,12 @@ func RunBubble(t *testing.T, cfg BubbleConfig, clients []Client, events []Event)
 	stats.Decisions += int64(out.Decisions)
 	stats.Forced += int64(out.Forced)
 	stats.trace(out.TraceHash)
+	if path := os.Getenv("VERIF_TRACE_DUMP"); path != "" {
+		if f, err := os.OpenFile(path, os.O_APPEND|os.O_CREATE|os.O_WRONLY, 0o644); err == nil {
+			fmt.Fprintf(f, "RUN %d hash=%d\n%s\n", stats.Runs, out.TraceHash, strings.Join(out.Trace, "\n"))
+			f.Close()
+		}
+	}
 	return out
 }
 
